@@ -128,16 +128,16 @@ Qed.
    the data member of an evaluation decodes to the evaluated value *)
 Theorem every_answer_wellformed : forall r,
   exists j, json_parse (body txt msg result r) = Some (JObj [(if is_err r then k_errors else k_data, j)]) /\
-            (forall k, r = RValue k -> decode j = Some (strip (result k))) /\
+            (forall k d, r = RValue k d -> decode j = Some (strip (result d))) /\
             (forall e, r = RErr e -> j = JArr [JObj [(k_details, JStr (msg e))]]).
 Proof.
-  intros [n k|c|k|e]; cbn [body is_err].
+  intros [n k|c|k d|e]; cbn [body is_err].
   - exists (to_json (VCtx [(k_namespace, VStr (txt n)); (k_name, VStr (txt k))])).
     split; [rewrite compact_wellformed; [reflexivity|cbn; rewrite !Htxt; reflexivity]|]. split; intros; discriminate.
   - exists (to_json (VCtx [(k_status, VStr (txt c))])).
     split; [rewrite compact_wellformed; [reflexivity|cbn; rewrite !Htxt; reflexivity]|]. split; intros; discriminate.
-  - exists (to_json (result k)). split; [apply value_body; apply Hres|]. split; [|intros; discriminate].
-    intros k' E. injection E as E. subst k'. apply decode_to_json.
+  - exists (to_json (result d)). split; [apply value_body; apply Hres|]. split; [|intros; discriminate].
+    intros k' d' E. injection E as E1 E2. subst k' d'. apply decode_to_json.
   - exists (to_json (VList [VCtx [(k_details, VStr (msg e))]])).
     split; [rewrite compact_wellformed; [reflexivity|cbn; rewrite !Hmsg; reflexivity]|]. split; [intros; discriminate|].
     intros e' E. injection E as E. subst e'. reflexivity.
@@ -146,6 +146,6 @@ End Bodies.
 
 (* the evaluate handler of the pinned commit answered a malformed document for a result holding a quotation mark *)
 Theorem body_orig_refuted :
-  json_parse (body_orig (fun _ => []) (fun _ => []) (fun _ => v_john) (RValue 0)) = None /\
-  json_parse (body (fun _ => []) (fun _ => []) (fun _ => v_john) (RValue 0)) = Some (JObj [(k_data, to_json v_john)]).
+  json_parse (body_orig (fun _ => []) (fun _ => []) (fun _ => v_john) (RValue 0 0)) = None /\
+  json_parse (body (fun _ => []) (fun _ => []) (fun _ => v_john) (RValue 0 0)) = Some (JObj [(k_data, to_json v_john)]).
 Proof. vm_compute. split; reflexivity. Qed.
